@@ -140,9 +140,9 @@ Inductive outcome (st : cstate) (mt id : Z) (payload : list Z) : cstate -> list 
 | O_close st' es : frame_legal st mt id payload = false -> shut st st' ->
     (es = [CloseConn] \/ es = [SendFrame c_messageTypeError id c_ErrCodeProtocol; CloseConn]) ->
     outcome st mt id payload st' es
-| O_pong_full st' : mt = c_messageTypePingReq -> cs_state st = c_connectionActive -> cs_sendroom st <= 0 -> shut st st' ->
+| O_pong_full st' : mt = c_messageTypePingReq -> cs_state st <> c_connectionClosed -> cs_sendroom st <= 0 -> shut st st' ->
     outcome st mt id payload st' [CloseConn]
-| O_pong : mt = c_messageTypePingReq -> cs_state st = c_connectionActive -> cs_sendroom st > 0 ->
+| O_pong : mt = c_messageTypePingReq -> cs_state st <> c_connectionClosed -> cs_sendroom st > 0 ->
     outcome st mt id payload (set_room (cs_sendroom st - 1) st) [SendFrame c_messageTypePingRes id 0]
 | O_dispatch f : mt = c_messageTypeCallReq -> cs_state st = c_connectionActive -> cs_stopped st = false ->
     mx_lookup id (cs_in st) = None -> parse_inbound_fragment payload = (0, f) ->
@@ -216,13 +216,13 @@ Proof.
     apply (forward_outcome_out st mt id payload); [| |exact F]; intros Hh; unfold frame_legal; rw_tests; cbn [orb]; exact Hh. }
   destruct (mt =? c_messageTypePingReq) eqn:T5.
   { assert (mt = c_messageTypePingReq) by lia. subst mt. unfold handle_ping_req.
-    destruct (cs_state st =? c_connectionActive) eqn:A; cbn [negb].
+    destruct (cs_state st =? c_connectionClosed) eqn:A.
+    - intros H. destruct (protocol_error_shut st id st' es Hok H) as [S E].
+      apply O_close; [|exact S|exact E]. unfold frame_legal. rw_tests. cbn [orb]. rw_tests. reflexivity.
     - destruct (cs_sendroom st >? 0) eqn:R.
       + intros H. inversion H; subst. apply O_pong; [reflexivity|lia|lia].
       + intros H. destruct (connection_error_shut st st' es Hok H) as [E S]. subst es.
-        apply O_pong_full; [reflexivity|lia|lia|exact S].
-    - intros H. destruct (protocol_error_shut st id st' es Hok H) as [S E].
-      apply O_close; [|exact S|exact E]. unfold frame_legal. rw_tests. cbn [orb]. rw_tests. reflexivity. }
+        apply O_pong_full; [reflexivity|lia|lia|exact S]. }
   destruct (mt =? c_messageTypePingRes) eqn:T6.
   { destruct (forward (cs_out st) id) as [ex e] eqn:F. intros H. inversion H; subst.
     apply (forward_outcome_out st mt id payload); [| |exact F]; intros Hh; unfold frame_legal; rw_tests; cbn [orb]; exact Hh. }
@@ -288,8 +288,8 @@ Proof.
     intros mt' i c Hin. destruct H1; subst; cbn in Hin.
     + destruct Hin as [F|[]]; discriminate.
     + destruct Hin as [F|[F|[]]]; [inversion F; auto|discriminate].
-  - exfalso. subst mt. unfold frame_legal in L. cbn in L. rewrite H0 in L. discriminate.
-  - exfalso. subst mt. unfold frame_legal in L. cbn in L. rewrite H0 in L. discriminate.
+  - exfalso. subst mt. unfold frame_legal in L. cbn in L. lia.
+  - exfalso. subst mt. unfold frame_legal in L. cbn in L. lia.
   - exfalso. subst mt. unfold frame_legal, has in L. rewrite H0, H1, H2, H3 in L. discriminate.
   - exfalso. subst mt. unfold frame_legal, has in L. cbn in L. rewrite H0 in L. discriminate.
   - congruence.
@@ -419,7 +419,7 @@ Proof.
     + destruct H2; subst; cbn in Hin; [destruct Hin as [X|[]]; discriminate|].
       destruct Hin as [X|[X|[]]]; [inversion X; subst; auto|discriminate].
     + destruct Hin as [X|[]]; discriminate.
-    + exfalso. unfold frame_legal in L. rewrite H0 in L. cbn in L. rewrite H1 in L. discriminate.
+    + exfalso. unfold frame_legal in L. rewrite H0 in L. cbn in L. lia.
     + destruct Hin as [X|[]]; discriminate.
     + destruct ok; destruct Hin as [X|[]]; discriminate.
     + destruct ok; destruct Hin as [X|[]]; discriminate.
@@ -484,3 +484,56 @@ Theorem cancel_ping_body_ignored : forall st mt id p1 p2,
   mt = c_messageTypeCancel \/ mt = c_messageTypePingReq \/ mt = c_messageTypePingRes ->
   handle_frame_no_relay st mt id p1 = handle_frame_no_relay st mt id p2.
 Proof. intros st mt id p1 p2 [H|[H|H]]; subst mt; reflexivity. Qed.
+
+(* ---------------- ping requests: the state test of Connection.handlePingReq ---------------- *)
+From Verif Require Import Gen.GenClose2.
+
+(* TIE: the model's decision whether a ping req is answered IS the state test go2v regenerates
+   from the `if state := c.readState(); state == connectionClosed {` statement of
+   Connection.handlePingReq on every run (Gen/GenClose2.v pingReqAnswer: 1 = control falls out
+   of the statement and the ping res is sent, 0 = the branch that calls protocolError) *)
+Theorem ping_state_test_generated : forall st id,
+  handle_ping_req st id =
+  (if pingReqAnswer (cs_state st) =? 1
+   then (if cs_sendroom st >? 0 then (set_room (cs_sendroom st - 1) st, [SendFrame c_messageTypePingRes id 0])
+         else connection_error st)
+   else protocol_error st id).
+Proof.
+  intros st id. unfold handle_ping_req, pingReqAnswer. destruct (cs_state st =? c_connectionClosed); reflexivity.
+Qed.
+
+(* ... and so is the specification's notion of a legal ping req *)
+Theorem ping_legal_generated : forall st id payload,
+  frame_legal st c_messageTypePingReq id payload = (pingReqAnswer (cs_state st) =? 1).
+Proof.
+  intros st id payload. unfold frame_legal, pingReqAnswer. cbn. destruct (cs_state st =? c_connectionClosed); reflexivity.
+Qed.
+
+(* of the four connection states only Closed refuses *)
+Theorem ping_refused_only_closed :
+  pingReqAnswer c_connectionActive = 1 /\ pingReqAnswer c_connectionStartClose = 1 /\
+  pingReqAnswer c_connectionInboundClosed = 1 /\ pingReqAnswer c_connectionClosed = 0.
+Proof. repeat split; reflexivity. Qed.
+
+(* a ping req on a connection that is not Closed -- Active or draining after Close, whatever
+   is in flight -- with room in the send queue: exactly one effect, the ping res with the
+   request's id; the close state, both exchange maps (every exchange in every detail) and the
+   stopped flag are what they were: the drain goes on *)
+Theorem ping_answered_unless_closed : forall st id payload, cs_state st <> c_connectionClosed -> cs_sendroom st > 0 ->
+  handle_frame_no_relay st c_messageTypePingReq id payload
+  = (set_room (cs_sendroom st - 1) st, [SendFrame c_messageTypePingRes id 0]).
+Proof.
+  intros st id payload Hs Hr. unfold handle_frame_no_relay. cbn. unfold handle_ping_req.
+  replace (cs_state st =? c_connectionClosed) with false by lia.
+  replace (cs_sendroom st >? 0) with true by lia. reflexivity.
+Qed.
+
+(* a Closed connection refuses: nothing is sent (SendSystemError refuses on a Closed
+   connection), the exchanges are stopped *)
+Theorem ping_refused_closed : forall st id payload, cs_state st = c_connectionClosed ->
+  snd (handle_frame_no_relay st c_messageTypePingReq id payload) = [CloseConn] /\
+  frame_legal st c_messageTypePingReq id payload = false.
+Proof.
+  intros st id payload Hs. unfold handle_frame_no_relay, frame_legal. cbn. unfold handle_ping_req, protocol_error, send_system_error.
+  rewrite Hs. cbn. split; reflexivity.
+Qed.
